@@ -2,8 +2,8 @@
 (* Generator of X05: line sequences over one alphabet.  Only the environment's choices are
    printed (the abstract lines); the driver turns them into files and loads every prefix.
    Constraints (environment assumptions): includes nest at most MaxDepth deep, an `end`
-   line only closes an open include, a blank owner never comes before the first owner of
-   the file set (RFC 1035 leaves that undefined).  A sequence may end inside an include:
+   line only closes an open include.  (A blank owner before any stated owner is generated:
+   RFC 1035 leaves it undefined, the policy field blank0 admits both readings.)  A sequence may end inside an include:
    the files then simply end there. *)
 EXTENDS ZoneReaderUniverse, Json
 
@@ -14,7 +14,6 @@ gvars == <<hist, dep, stated, fin>>
 GInit == hist = <<>> /\ dep = 0 /\ stated = FALSE /\ fin = FALSE
 Ok(l) == /\ (l.k = "inc" => dep < MaxDepth)
          /\ (l.k = "end" => dep > 0)
-         /\ (l.k = "rr" /\ l.owner = Blank => stated)
 GNext == /\ ~fin
          /\ IF Len(hist) < MaxLines
             THEN \E l \in Alphabet : /\ Ok(l)
